@@ -421,6 +421,81 @@ pub fn read_go_duration(t: &[u8]) -> Option<i128> {
     Some(if neg { -total } else { total })
 }
 
+/// Reader of duration texts for the parse half of C15: `[-] (digits [. digits] unit)+` with units
+/// h m s ms us ns and the micro-sign spelling that string() prints.  Returns the closed interval of
+/// nanosecond counts the text may denote (per-term floor .. per-term ceiling of the part below one
+/// nanosecond; the two coincide when every fraction is a whole number of nanoseconds), or None when the
+/// text is not of that form.  A bare "0" / "-0" is not a term sequence (None).
+pub fn read_duration_bounds(t: &[u8]) -> Option<(i128, i128)> {
+    let mut i = 0;
+    let neg = t.first() == Some(&b'-');
+    if neg {
+        i = 1;
+    }
+    let (mut lo, mut hi): (i128, i128) = (0, 0);
+    let mut terms = 0;
+    while i < t.len() {
+        let mut int: i128 = 0;
+        let mut nd = 0;
+        while i < t.len() && t[i].is_ascii_digit() {
+            int = int.checked_mul(10)?.checked_add((t[i] - b'0') as i128)?;
+            i += 1;
+            nd += 1;
+        }
+        if nd == 0 {
+            return None;
+        }
+        let (mut fnum, mut fden): (i128, i128) = (0, 1);
+        if i < t.len() && t[i] == b'.' {
+            i += 1;
+            let mut fd = 0;
+            while i < t.len() && t[i].is_ascii_digit() {
+                if fd < 20 {
+                    fnum = fnum * 10 + (t[i] - b'0') as i128;
+                    fden *= 10;
+                } else if t[i] != b'0' {
+                    // digits this far down only matter for the ceiling
+                    fnum = fnum.max(1);
+                }
+                i += 1;
+                fd += 1;
+            }
+            if fd == 0 {
+                return None;
+            }
+        }
+        let rest = &t[i..];
+        let (scale, ul): (i128, usize) = if rest.starts_with(b"ns") {
+            (1, 2)
+        } else if rest.starts_with(b"us") {
+            (1_000, 2)
+        } else if rest.starts_with(&[0xC2, 0xB5, b's']) {
+            (1_000, 3)
+        } else if rest.starts_with(b"ms") {
+            (1_000_000, 2)
+        } else if rest.starts_with(b"s") {
+            (1_000_000_000, 1)
+        } else if rest.starts_with(b"m") {
+            (60_000_000_000, 1)
+        } else if rest.starts_with(b"h") {
+            (3_600_000_000_000, 1)
+        } else {
+            return None;
+        };
+        i += ul;
+        let whole = int.checked_mul(scale)?;
+        let q = (fnum * scale) / fden;
+        let r = (fnum * scale) % fden;
+        lo = lo.checked_add(whole)?.checked_add(q)?;
+        hi = hi.checked_add(whole)?.checked_add(q + (r != 0) as i128)?;
+        terms += 1;
+    }
+    if terms == 0 {
+        return None;
+    }
+    Some(if neg { (-hi, -lo) } else { (lo, hi) })
+}
+
 // ---------------------------------------------------------------- proleptic Gregorian calendar
 
 pub struct Civil {
